@@ -326,8 +326,18 @@ fn more_family<
             mode,
             2,
             "W{store, store, flag.store(Release)} || C{cache.load; if flag.load(Acquire) {cache.load}; cache.load}",
-            move || h_more::cache_conc::<S>(fill),
+            move || h_more::cache_conc::<S>(fill, false),
         ));
+        if mode == Reuse {
+            out.push(inst(
+                format!("cache_aba:{}:{}", path, m),
+                &["C16"],
+                mode,
+                2,
+                "W{store, store, store (reusing the address of the first), flag.store(Release)} || C{cache.load; cache.load; if flag.load(Acquire) {cache.load}; cache.load}",
+                move || h_more::cache_conc::<S>(fill, true),
+            ));
+        }
         out.push(inst(
             format!("map_conc:{}:{}", path, m),
             &["C17"],
